@@ -52,3 +52,73 @@ fn h_w_block_edges() {
     w_top_edge::held_subnet_at_top_of_address_space_is_not_handed_out_again();
     w_top_edge::blocked_subnet_at_top_of_address_space_is_not_handed_out();
 }
+
+// ---------------------------------------------------------------------------
+// BOUNDED stand-in for the whole IpGenerator API (kind=witness: never run by Kani, never counted as proved).  Run on the
+// real code only when the Verus unit `ipgen` cannot ingest a changed function (the unit is then UNDECIDED): 3000
+// deterministic pseudo-random histories of 40 fetch_ip / fetch_net / return_ip / return_subnet / block_subnet operations
+// on a /26 pool (returns of addresses that are not held included), compared after every step with the set of available
+// addresses: nothing is handed out that is not available (so nothing is held twice), fetch_ip fails only on an empty
+// pool.
+// ---------------------------------------------------------------------------
+#[cfg(vx_replay)]
+struct VxLcg(u64);
+#[cfg(vx_replay)]
+impl VxLcg {
+    fn next(&mut self, n: usize) -> usize {
+        self.0 = self.0.wrapping_mul(6364136223846793005).wrapping_add(1442695040888963407);
+        ((self.0 >> 33) as usize) % n.max(1)
+    }
+}
+
+//# id=witness.generator_matches_the_set_of_available_addresses props=C15 kind=witness pair=ipgen.IpGenerator.fetch_ip.safety,ipgen.IpGenerator.fetch_net.only_hands_out_available_addresses,ipgen.IpGenerator.fetch_net.handed_out_addresses_become_unavailable,ipgen.IpGenerator.fetch_net.safety,ipgen.IpGenerator.block_range.safety,ipgen.IpGenerator.return_ip.safety,ipgen.IpGenerator.return_subnet.safety,ipgen.IpGenerator.new_sub.safety
+#[cfg(vx_replay)]
+#[test]
+fn h_w_ipgen_model() {
+    use std::collections::BTreeSet;
+    const BASE: u32 = 0x0a00_0040; // 10.0.0.64/26
+    for seed in 0..3000u64 {
+        let mut g = VxLcg(seed.wrapping_mul(0x9e3779b97f4a7c15) ^ 0x7f4a7c15_9e3779b9);
+        let mut gen = IpGenerator::new_sub(Ipv4Net::new_short(Ipv4Address::from(BASE), 26));
+        let mut free: BTreeSet<u32> = (BASE..BASE + 64).collect();
+        let net_of = |g: &mut VxLcg| -> (Ipv4Net, u32, u32) {
+            let len = 27 + g.next(6) as u32; // /27 ../32
+            let size = 1u32 << (32 - len);
+            let a = BASE + (g.next(64) as u32 & !(size - 1));
+            (Ipv4Net::new_short(Ipv4Address::from(a), len), a, size)
+        };
+        for step in 0..40usize {
+            match g.next(7) {
+                0 | 1 | 2 => match gen.fetch_ip() {
+                    Some(ip) => assert!(free.remove(&ip.to_u32()), "fetch_ip handed out {ip}, which is not available (held or outside the pool) (seed {seed}, step {step})"),
+                    None => assert!(free.is_empty(), "fetch_ip reports exhaustion although {} addresses are available (seed {seed}, step {step})", free.len()),
+                },
+                3 => {
+                    let len = 28 + g.next(5) as u32;
+                    let size = 1u32 << (32 - len);
+                    match gen.fetch_net(Ipv4Mask::from_bitcount(len)) {
+                        Some(net) => {
+                            let id = net.id().to_u32();
+                            assert_eq!(id % size, 0, "fetch_net returned an unaligned network (seed {seed}, step {step})");
+                            for a in id..id + size { assert!(free.remove(&a), "fetch_net handed out {a:#x}, which is not available (seed {seed}, step {step})"); }
+                        }
+                        // (exhaustion is judged per available range by the generator - separately returned neighbours are
+                        //  not merged - so a None for a block larger than one address is not compared with the set model)
+                        None => { if size == 1 { assert!(free.is_empty(), "fetch_net(/32) reports exhaustion although addresses are available (seed {seed}, step {step})"); } }
+                    }
+                }
+                4 => { let a = BASE + g.next(64) as u32; gen.return_ip(Ipv4Address::from(a)); free.insert(a); }
+                5 => { let (net, a, size) = net_of(&mut g); gen.return_subnet(net); for x in a..a + size { free.insert(x); } }
+                _ => { let (net, a, size) = net_of(&mut g); gen.block_subnet(net); for x in a..a + size { free.remove(&x); } }
+            }
+        }
+        // drain: exactly the available addresses come out, each once
+        let mut n = 0;
+        while let Some(ip) = gen.fetch_ip() {
+            assert!(free.remove(&ip.to_u32()), "fetch_ip handed out {ip} twice or outside the pool while draining (seed {seed})");
+            n += 1;
+            assert!(n <= 64);
+        }
+        assert!(free.is_empty(), "{} available addresses were never handed out (seed {seed})", free.len());
+    }
+}
